@@ -6,8 +6,8 @@
    Setting (see TfmSpec.v, TfmLink.v): a matrix is a list of M rows of K rationals
    (K-1 symbol cells + the wildcard cell, last), [bg] the K background frequencies;
    [matrix_ok K rows bg]: K >= 2, every row has K cells, the K-1 symbol frequencies
-   are non-negative and sum to 1 (no wildcard mass), wildcard cells are <= 0 (-inf in
-   the code).  [Ptail rows bg t] = P(S >= t) is the exact tail of the score S of a
+   are non-negative and sum to 1, the wildcard frequency is 0 (no wildcard mass); the
+   wildcard cells are arbitrary (the code no longer reads them).  [Ptail rows bg t] = P(S >= t) is the exact tail of the score S of a
    random background-distributed word: the sum over all words of the product of the
    symbol frequencies times [S(w) >= t].  The model ([pv_next], [pv_run] ... in
    TfmModel.v) is instantiated with exact rational arithmetic [NumQ]; the binary64
@@ -42,7 +42,7 @@ Theorem C12_dist_exact : forall (G : geom) (bg : list Q) mn mx rowsq n,
   (2 <= length (g_int G))%nat ->
   Forall (fun r => length r = n /\ forall c, In c r -> (0 <= c)%Z) (g_int G) ->
   g_maxr G = map zmax_of (g_int G) ->
-  bg_unit n bg -> (n <= length bg)%nat -> (mn <= mx + 1)%Z ->
+  bg_mass n bg -> (n <= length bg)%nat -> (mn <= mx + 1)%Z ->
   dist_exact (irows (g_int G) bg) mn mx (last rowsq []).
 Proof. exact distribution_exact. Qed.
 
@@ -162,7 +162,7 @@ Check C12_dist_exact : forall (G : geom) (bg : list Q) mn mx rowsq n,
   (2 <= length (g_int G))%nat ->
   Forall (fun r => length r = n /\ forall c, In c r -> (0 <= c)%Z) (g_int G) ->
   g_maxr G = map zmax_of (g_int G) ->
-  bg_unit n bg -> (n <= length bg)%nat -> (mn <= mx + 1)%Z ->
+  bg_mass n bg -> (n <= length bg)%nat -> (mn <= mx + 1)%Z ->
   dist_exact (irows (g_int G) bg) mn mx (last rowsq []).
 
 (* ---------- non-vacuity ---------- *)
@@ -173,11 +173,11 @@ Definition ex_bg2 : list Q := [1 # 2; 1 # 4; 1 # 8; 1 # 8; 0].
 Definition ex_perm : list nat := [0; 1; 2]%nat.
 
 Example ex_matrix_ok (bg : list Q) :
-  length bg = 5%nat -> (forall b, In b bg -> 0 <= b) -> bg_unit 4 bg -> matrix_ok 5 ex_rows bg.
+  length bg = 5%nat -> (forall b, In b bg -> 0 <= b) -> bg_unit 4 bg -> last bg 0 == 0 ->
+  matrix_ok 5 ex_rows bg.
 Proof.
-  intros H1 H2 H3. unfold matrix_ok. split; [lia|]. split; [repeat constructor|].
-  split; [exact H1|]. split; [exact H2|]. split; [exact H3|].
-  repeat constructor; cbn; discriminate.
+  intros H1 H2 H3 H4. unfold matrix_ok. split; [lia|]. split; [repeat constructor|].
+  split; [exact H1|]. split; [exact H2|]. split; [exact H3|exact H4].
 Qed.
 
 Example C12_nonvacuous_hyps :
@@ -185,9 +185,9 @@ Example C12_nonvacuous_hyps :
   Permutation ex_perm (seq 0 (length ex_rows)).
 Proof.
   split; [|split].
-  - apply ex_matrix_ok; [reflexivity| |reflexivity].
+  - apply ex_matrix_ok; [reflexivity| |reflexivity|reflexivity].
     intros b Hb. cbn in Hb. repeat (destruct Hb as [<-|Hb]; [discriminate|]). destruct Hb.
-  - apply ex_matrix_ok; [reflexivity| |reflexivity].
+  - apply ex_matrix_ok; [reflexivity| |reflexivity|reflexivity].
     intros b Hb. cbn in Hb. repeat (destruct Hb as [<-|Hb]; [discriminate|]). destruct Hb.
   - apply Permutation_refl.
 Qed.
